@@ -144,6 +144,18 @@ def _conc_scenario(rng):
     for j in scn["jobs"]:
         if j["call"] == 0 and rng.random() < 0.6:
             j["max_att"] = rng.choice([1, 1, 2])
+    if rng.random() < 0.5:
+        # "never reappears": another thread changes the registry (tag deletion that matches nothing, a new job) while a
+        # caller performs a job's last run - a read-modify-write of the registry must not write the retired job back
+        extra = [{"op": "dtags", "tags": [4], "any": rng.random() < 0.5}] if rng.random() < 0.7 else \
+                [{"op": "sch", "call": 0, "timings": [["c", 40 * 10**6]], "tags": [4]}]
+        t = rng.randrange(len(scn["threads"]))
+        scn["threads"][t] = (extra + scn["threads"][t]) if rng.random() < 0.6 else (scn["threads"][t] + extra)
+        if rng.random() < 0.5:
+            scn["threads"].append(list(extra))
+            t = len(scn["threads"]) - 1
+        if rng.random() < 0.7:
+            scn["sched"] = {"kind": "pause", "victim": t, "at": rng.randint(0, 25), "seed": rng.randrange(10**9)}
     scn["kind"] = "conc"
     return scn
 
@@ -162,6 +174,8 @@ def specs(r):  # noqa: F811
         return _seq["specs"](r)
     out = r["obs"][0]
     qs = []
+    if out.get("uncontrollable"):
+        return qs
     if out.get("deadlock") or out.get("error"):
         qs.append(("spec eq 0 1", {"what": "overlapping callers: deadlock or a thread died", "detail": out.get("deadlock") or out.get("error")}))
         return qs
@@ -196,4 +210,5 @@ def nontrivial(r):  # noqa: F811
 
 
 RULE += ("; 8% of the scenarios are overlapping exec_jobs callers (2-3 controlled threads on 1-2 never-run jobs with limits, thread "
-         "switches at every source line of the execution path): attempts and invocations stay within max_attempts, exhausted jobs are gone")
+         "switches at every source line of the execution path; in half of them a further registry-changing call - tag deletion matching nothing, "
+         "a new job - runs alongside): attempts and invocations stay within max_attempts, exhausted jobs are gone and stay gone")
